@@ -123,6 +123,29 @@ def run_job(job, tier, seed):
                     if not ok:
                         res.violate('MVArray.save then load_ga_file does not return equal multivectors attached to the loading layout', site,
                                     None, None, dict(site, op='save-load'))
+                    # a second layout with the SAME signature (equal under Layout.__eq__) but another blade order, used after the first one in
+                    # this process: what it saves and loads belongs to it, not to the first layout
+                    if len(sig) >= 2:
+                        twin = real.make_layout(sig, order=list(range(gaD)) if not common.is_shortlex(L) or len(sig) < 3 else list(reversed(range(gaD))))
+                        res.case(('save-twin', comp, tr, shp, tuple(sig), vals.tobytes()))
+                        res.count('mvarray_save_twin')
+                        fn2 = os.path.join(tmp, f"t{k}.ga")
+                        try:
+                            arr2 = cf.MVArray.from_value_array(twin, vals)
+                            arr2.save(fn2, compression=comp, transpose=tr)
+                            back2 = twin.load_ga_file(fn2)
+                            ok2 = (all(x.layout is twin for x in arr2.ravel()) and back2.shape == arr2.shape and np.array_equal(back2.value, vals)
+                                   and all(x.layout is twin for x in back2.ravel()))
+                        except Exception as e:
+                            ok2 = False
+                            res.violate('MVArray.save / load_ga_file raises on a second layout of the same signature', site, repr(e), 'round trip',
+                                        dict(site, op='save-twin-raise'))
+                        else:
+                            if not ok2:
+                                res.violate('multivectors built / loaded for a second layout of the same signature (other blade order) are attached to the first layout',
+                                            dict(site, twin_order='bitmap/reversed'), None, None, dict(site, op='save-load-twin'))
+                        if os.path.exists(fn2):
+                            os.unlink(fn2)
                     # a layout of different signature must refuse
                     others = [[(-s if s != 0 else 1) for s in sig]]
                     # same numbers of +, -, 0 in a different order is a different signature too
